@@ -127,7 +127,7 @@ type Meta struct {
 	WorkloadProbes []string          `json:"workload_probes"` // must be >0 in a thorough batch, else exit 2
 	Components     map[string]string `json:"components"`
 	Assumptions    []string          `json:"assumptions"`
-	Exhaustive     bool              `json:"exhaustive"`    // thorough sweep enumerates a finite space completely
+	Exhaustive     bool              `json:"exhaustive"` // thorough sweep enumerates a finite space completely
 	ChildTimeoutS  int               `json:"child_timeout_s"`
 }
 
